@@ -3,6 +3,10 @@
    kinds: 1 = model and implementation disagree (correspondence)
           2 = the component-wise / arbitrary-precision specification (Base/ResSpec.v, Base/QuantitySpec.v:
               the right-hand sides of the theorems of Props/C18.v) disagrees with the observed result
+          3 = specification failure inside the window of known finding C18-subelim-left-negative
+              (SubEliminateNegative / SubErrorNegative keep a negative value of a type that only the left
+              operand has; the documented behaviour resets every negative value): the result must still
+              equal the code-level specification subElim_at / subNeg_at, anything else is kind 2
           4 = an argument was modified / the result aliases an argument / resources.Zero was modified
           5 = the implementation panicked *)
 From Coq Require Import List ZArith NArith Bool Floats.SpecFloat.
@@ -69,7 +73,7 @@ Definition agrees (m : mres) (o : robs) : bool :=
   | MInt x, OInt y => x =? y
   | MFlt fs, OFlt f => existsb (fun x => f_same x (cf f)) fs
   | MParse (POk v), OParse true w => v =? w
-  | MParse (PErr c), OParse false d => c =? d
+  | MParse (PErr _), OParse false _ => true   (* which of the three errors is reported is not compared *)
   | MKey ks, OKey k => existsb (okey_eqb (match k with Some z => Some (Z.to_N z) | None => None end)) ks
   | MPanic, OPanic => true
   | _, _ => false
@@ -231,10 +235,28 @@ Definition oracle (c : rcall) (o : robs) : bool :=
                    else (match o with OPanic => false | _ => true end)
   end.
 
+(* documented behaviour of SubEliminateNegative / SubErrorNegative, with the known-finding window *)
+Definition subElim_doc_ok (x y : ores) (o : robs) : bool :=
+  let a := oget x in let b := oget y in
+  match o with
+  | ORes (Some out) => pw_ok subElimDoc_at a b (cv out)
+  | OResB (Some out) e => pw_ok subElimDoc_at a b (cv out) && Bool.eqb e (some_key subNegDoc_at a b)
+  | _ => false
+  end.
+Definition oracle_kind (c : rcall) (o : robs) : list N :=
+  match c with
+  | K2 fn x y _ =>
+      if (fn =? fSubEliminateNegative) || (fn =? fSubErrorNegative) then
+        if subElim_doc_ok (cvo x) (cvo y) o then []
+        else if subElim_known_window (oget (cvo x)) (oget (cvo y)) && oracle c o then [3%N] else [2%N]
+      else if oracle c o then [] else [2%N]
+  | _ => if oracle c o then [] else [2%N]
+  end.
+
 Definition res_check1 (c : rcase) : list N :=
   let '(call, o, mut) := c in
   (if agrees (model call) o then [] else [1%N]) ++
-  (match o with OPanic => [5%N] | _ => if oracle call o then [] else [2%N] end) ++
+  (match o with OPanic => [5%N] | _ => oracle_kind call o end) ++
   (if mut =? 0 then [] else [4%N]).
 
 Fixpoint indexed {A} (i : N) (l : list A) : list (N * A) :=
